@@ -16,7 +16,7 @@ from .interpreterbase.helpers import flatten
 from mesonbuild.mesonlib import MesonException, pathname_sort_key, relpath, setup_vsenv
 from . import mlog, environment
 from functools import wraps
-from .mparser import Token, ArrayNode, ArgumentNode, ArithmeticNode, AssignmentNode, BaseNode, StringNode, BooleanNode, DictNode, ElementaryNode, IdNode, IndexNode, FunctionNode, PlusAssignmentNode
+from .mparser import Token, ArrayNode, ArgumentNode, ArithmeticNode, AssignmentNode, BaseNode, StringNode, BooleanNode, DictNode, ElementaryNode, IdNode, IndexNode, FunctionNode, PlusAssignmentNode, TernaryNode
 from .mintro import IntrospectionEncoder
 import json, os, re, sys, codecs
 import typing as T
@@ -721,8 +721,9 @@ class Rewriter:
             all_paths = self.interpreter.dataflow_dag.find_all_paths(candidate, target.node)
             for path in all_paths:
                 for el in path:
-                    # An element picked out of a container (`ar[1]`) does not change when the container grows.
-                    if isinstance(el, (UnknownValue, IndexNode)):
+                    # An element picked out of a container (`ar[1]`) does not change when the container grows,
+                    # and only one branch of a ternary is alive.
+                    if isinstance(el, (UnknownValue, IndexNode, TernaryNode)):
                         return True
             return False
 
